@@ -245,6 +245,8 @@ struct Ctx {
     network: Network,
     native: bool,
     allow_scripts: Vec<ScriptBuf>,
+    /// scripts that were on the allowlist and have been removed again: unknown destinations from then on
+    removed_scripts: Vec<ScriptBuf>,
     xpubs: Vec<Xpub>,
     allow_strings: Vec<String>,
     next_chan: usize,
@@ -377,6 +379,7 @@ fn new_ctx(rng: &mut Rng) -> Ctx {
         "start_time": world.now(),
     });
     Ctx {
+        removed_scripts: vec![],
         world,
         node_ctx,
         secp,
@@ -553,7 +556,8 @@ fn build_out(ctx: &mut Ctx, rng: &mut Rng, cls: Cls, huge: bool, chans: &mut Vec
             Out { cls, sub: kind.into(), txout: TxOut { value: Amount::from_sat(value), script_pubkey: script }, opath: path, chan: None }
         }
         Cls::Unknown => {
-            let (sub, script): (&str, ScriptBuf) = match rng.below(6) {
+            let (sub, script): (&str, ScriptBuf) = match if !ctx.removed_scripts.is_empty() && rng.chance(1, 3) { 6 } else { rng.below(6) } {
+                6 => ("removed-allowlist-entry", rng.pick(&ctx.removed_scripts).clone()),
                 0 => {
                     // a wallet address, but no path: the signer cannot know
                     let path = gen_path(rng, ctx.native);
@@ -1338,6 +1342,54 @@ fn history(rng: &mut Rng, r: &mut Report, shard: usize, h: u64, steps: u64, seed
     r.count(&format!("worlds.style.{}", if ctx.native { "native" } else { "ldk" }));
     for s in 0..steps {
         ctx.world.advance_time(gen_step(rng));
+        // now and then an allowlisted script is removed again; half of the removals meet a store that is
+        // unavailable for one write (the request fails or the daemon dies, the node repeats it), and the signer
+        // is restarted afterwards: from then on the script is an unknown destination
+        if !ctx.allow_scripts.is_empty() && rng.chance(1, 30) {
+            let i = rng.usize(ctx.allow_scripts.len());
+            let entry = ctx.allow_strings[i].clone();
+            let inject = rng.bool();
+            if inject {
+                ctx.world.store.arm_faults(0, 1);
+            }
+            let n1 = ctx.world.node.clone();
+            let e1 = entry.clone();
+            let mut res = report::catch(move || n1.remove_allowlist(&[e1]).map_err(|e| format!("{:?}", e)));
+            let fired = if inject { ctx.world.store.disarm_faults() } else { 0 };
+            let mut ok = true;
+            if fired > 0 && !matches!(res, Ok(Ok(()))) {
+                r.count("allowlist.removal_met_storage_failure");
+                if res.is_err() {
+                    ok = ctx.world.restart().is_ok();
+                    ctx.node_ctx.node = ctx.world.node.clone();
+                }
+                if ok {
+                    let n2 = ctx.world.node.clone();
+                    let e2 = entry.clone();
+                    res = report::catch(move || n2.remove_allowlist(&[e2]).map_err(|e| format!("{:?}", e)));
+                    r.count("allowlist.removal_retried");
+                }
+            }
+            if ok && matches!(res, Ok(Ok(()))) {
+                let script = ctx.allow_scripts.remove(i);
+                ctx.allow_strings.remove(i);
+                ctx.removed_scripts.push(script);
+                r.count("allowlist.script_removed");
+                if fired > 0 || rng.bool() {
+                    if ctx.world.restart().is_ok() {
+                        ctx.node_ctx.node = ctx.world.node.clone();
+                        r.count("allowlist.restart_after_removal");
+                    } else {
+                        r.inconclusive("restart failed");
+                        return;
+                    }
+                }
+            } else {
+                r.note(&format!("remove_allowlist failed: {:?}", res).chars().take(160).collect::<String>());
+                r.count("allowlist.removal_failed");
+                ctx = new_ctx(rng);
+            }
+        }
         let case = gen_case(&mut ctx, rng, r);
         r.eval(1);
         r.count(&format!("scenario.{}", case.scenario));
@@ -1545,7 +1597,7 @@ fn main() {
                 "a wallet address offered with a wrong (other wallet) path, and a push below 1 sat, are counted but not judged (no value leaves the node / loss < 1 sat)".into(),
                 "off-by-one changes exactly at the fee bound are not detected: the weight bound is deliberately generous (DESIGN.md section 4)".into(),
                 "panics of the overflow-checking profile are counted, not judged".into(),
-                "no restarts here: persistence of the fee velocity control across restarts belongs to C12".into(),
+                "restarts happen only after allowlist removals; persistence of the fee velocity control across restarts belongs to C12".into(),
                 "a transaction whose unknown outputs were explicitly approved is judged on its output classes, funding outputs and segwit inputs only; its fee and the fee velocity are outside the property (explicit approval covers the whole transaction) and are only counted (observed.approved_unknown_*)".into(),
             ],
             start,
